@@ -59,53 +59,43 @@ func NewAutoEscapeExtension() *AutoEscapeExtension {
 
 // AutoEscapeVisitor can be used to automatically apply the "escape" filter
 // to any PrintNode.
+//
+// One visitor is shared by every template an Env parses, possibly at the same
+// time, so it keeps no state between calls: the whole tree is processed when
+// its root is entered.
 type autoEscapeVisitor struct {
-	ext   *AutoEscapeExtension
-	stack []string
-}
-
-// push adds the given name on top of the stack.
-func (v *autoEscapeVisitor) push(name string) {
-	v.stack = append(v.stack, name)
-}
-
-// pop removes the top-most name on the stack.
-func (v *autoEscapeVisitor) pop() {
-	if len(v.stack) > 0 {
-		v.stack = v.stack[0 : len(v.stack)-1]
-	}
-}
-
-func (v *autoEscapeVisitor) current() string {
-	if len(v.stack) == 0 {
-		// TODO: This is an invalid state.
-		return ""
-	}
-	return v.stack[len(v.stack)-1]
+	ext *AutoEscapeExtension
 }
 
 func (v *autoEscapeVisitor) Enter(n parse.Node) {
-	switch node := n.(type) {
-	case *parse.ModuleNode:
-		v.push(v.guessTypeFromName(node.Origin))
-	case *parse.BlockNode:
-		v.push(v.guessTypeFromName(node.Origin))
-	case *parse.PrintNode:
-		ct := v.current()
-		v := node.X
-		r := parse.NewFilterExpr(
-			"escape",
-			[]parse.Expr{v, parse.NewStringExpr(ct, v.Start())},
-			v.Start(),
-		)
-		node.X = r
+	if node, ok := n.(*parse.ModuleNode); ok {
+		v.escape(node, v.guessTypeFromName(node.Origin))
 	}
 }
 
 func (v *autoEscapeVisitor) Leave(n parse.Node) {
-	switch n.(type) {
-	case *parse.ModuleNode, *parse.BlockNode:
-		v.pop()
+}
+
+// escape wraps the expression of every PrintNode below n in an application of
+// the "escape" filter. ct is the content type in effect at n; a block takes
+// the content type of the template it is defined in.
+func (v *autoEscapeVisitor) escape(n parse.Node, ct string) {
+	switch node := n.(type) {
+	case *parse.BlockNode:
+		ct = v.guessTypeFromName(node.Origin)
+	case *parse.PrintNode:
+		x := node.X
+		node.X = parse.NewFilterExpr(
+			"escape",
+			[]parse.Expr{x, parse.NewStringExpr(ct, x.Start())},
+			x.Start(),
+		)
+		return
+	}
+	for _, c := range n.All() {
+		if c != nil {
+			v.escape(c, ct)
+		}
 	}
 }
 
